@@ -868,6 +868,8 @@ pub static ENTRIES: &[Entry] = &[
     Entry { name: "http.r.sync_response", traits: h::T_REQ, f: h::r_sync_response },
     Entry { name: "http.r.server_keys_response", traits: h::T_REQ, f: h::r_server_keys_response },
     Entry { name: "http.r.get_content_response", traits: h::T_REQ, f: h::r_get_content_response },
+    Entry { name: "http.r.fed_media_content", traits: h::T_REQ, f: h::r_fed_media_content },
+    Entry { name: "http.r.fed_media_thumbnail", traits: h::T_REQ, f: h::r_fed_media_thumbnail },
     Entry { name: "stateres.auth_types", traits: T_JSON | T_BYTES, f: sr::auth_types },
     Entry { name: "stateres.auth_check", traits: T_JSON | T_BYTES, f: sr::auth_check_all },
     Entry { name: "stateres.resolve", traits: T_JSON | T_BYTES, f: sr::resolve_sets },
